@@ -160,8 +160,13 @@ def Case.env (c : Case) : Env :=
 
 def Case.world (c : Case) : World := { addr := fun x => c.addr.getD x 0 }
 
+/-- `H=…!`: the whole program runs inside a destructor while the thread is unwinding from an
+unrelated panic (inner panics are caught inside that destructor) -/
+def Case.outer (c : Case) : Bool := c.held.contains '!'
+
+
 def Case.run (c : Case) : String :=
-  let C : Ctx := { W := c.world, colls := c.colls }
+  let C : Ctx := { W := c.world, colls := c.colls, outer := c.outer }
   let (t, s) := seqRun c.script 100000 { env := c.env, np := c.np, seenPoison := List.replicate c.np false } (program C c.prog {})
   c.id ++ ";" ++ " ".intercalate (s.trace.reverse.map TEv.text) ++ ";" ++ t.text ++ ";" ++
     (match t with
